@@ -441,7 +441,7 @@ class Evaluator:
             return self.ev(n.func.value)
         if f.endswith(".dot"):
             a, b = self.ev(n.func.value), self.ev(args[0])
-            if "rotation" in ast.unparse(n.func.value):
-                return b
+            if a.kind == "rot":
+                return b      # an orthogonal change of frame: parity and support of the operand are unchanged
             raise NotInFragment("method dot")
         raise NotInFragment(f"call {f}")
